@@ -198,7 +198,7 @@ var propRules = map[string]*PropSpec{
 		Technique:  "static analysis: sibling table extraction from type switches (AST + go/constant), dominance",
 	},
 	"C14": {
-		Rules:       []string{"F8.run", "F8.bitmap", "F3.32", "L7", "F8.scratch", "A2.32", "A3.32", "F2.repair", "F13.32", "RES1", "F8.point"},
+		Rules:       []string{"F8.run", "F8.bitmap", "F3.32", "L7", "F8.scratch", "A2.32", "A3.32", "F2.repair", "F13.32", "RES1", "F8.point", "U6"},
 		Explanation: explBase + " C14: the representation-minimisation clause the bound relies on, and the documented constants of BoundSerializedSizeInBytes.",
 		Decided: []string{
 			"containers are never shared unflagged (a write through a stale flag would corrupt another bitmap's chunk and its size)",
